@@ -201,6 +201,7 @@ structure Env where
   pullOk : Bool
   verifyOk : Bool
   renameOk : Bool
+  syncOk : Bool
 
 inductive Ret where
   | ok | err
@@ -227,7 +228,7 @@ def interp (env : Env) : Bool → List Step → Run
   | g, .intoTrailer :: r => if env.trailerOk then interp env g r else ⟨cleanup g, .err⟩
   | g, .checkLast :: r => if env.lastSeen then interp env g r else ⟨cleanup g, .err⟩
   | g, .flush :: r => (interp env g r).pre [.flush]
-  | g, .sync :: r => (interp env g r).pre [.sync]
+  | g, .sync :: r => if env.syncOk then (interp env g r).pre [.sync] else ⟨.sync :: cleanup g, .err⟩
   | g, .pullRes :: r => if env.pullOk then interp env g r else ⟨cleanup g, .err⟩
   | g, .verify :: r => if env.verifyOk then interp env g r else ⟨cleanup g, .err⟩
   | g, .commit :: r =>
@@ -288,6 +289,10 @@ structure Script where
   verifyOk : Bool       -- what the caller's `verify` returns
   trailer : Nat         -- `trailer_len`
   renameOk : Bool       -- `fs::rename` succeeds (OS; fails e.g. when `dest` is a non-empty directory)
+  writeFault : Option Nat := none
+    -- `some k`: the file system accepts `k` bytes in the temp file and refuses the next one (ENOSPC,
+    -- EFBIG, EDQUOT …): a write crossing byte `k` is cut short there and the following `write` is an error
+  syncOk : Bool := true -- `sync_all` succeeds (`false`: fsync reports EIO / ENOSPC / EINVAL …)
   deriving DecidableEq, Repr
 
 /-- `check_output`: the `.beve.zst` output needs a zstd stream, the `.beve` output a zstd BEVE stream;
@@ -306,7 +311,25 @@ def decoded (p : Puller) (s : Script) (codec : Codec) : Decoded :=
   let pl := pulled p s
   decodeStream p.decodes s.comp codec pl.bodies (p.isAsync || pl.ok)
 
-def envOf (p : Puller) (s : Script) (codec : Codec) : Env :=
+/-- The writes that reach a temp file which takes at most `k` bytes (`write_all`: a short write at the
+limit, then the error), and whether all of them went through. -/
+def limitWrites : Option Nat → List Bytes → List Bytes × Bool
+  | none, ws => (ws, true)
+  | some _, [] => ([], true)
+  | some k, w :: r =>
+    if w.length ≤ k then
+      let x := limitWrites (some (k - w.length)) r
+      (w :: x.1, x.2)
+    else ([w.take k], false)
+
+/-- `some c` iff a file of `c`'s length is accepted. -/
+def fit (lim : Option Nat) (c : Bytes) : Option Bytes :=
+  match lim with
+  | none => some c
+  | some k => if c.length ≤ k then some c else none
+
+/-- The environment when the file system accepts every write. -/
+def envOf0 (p : Puller) (s : Script) (codec : Codec) : Env :=
   let pl := pulled p s
   let d := decoded p s codec
   let h := Hold.run s.trailer d.writes
@@ -316,7 +339,15 @@ def envOf (p : Puller) (s : Script) (codec : Codec) : Env :=
     trailerOk := (Hold.intoTrailer s.trailer h).isSome,
     pullOk := pl.ok,
     verifyOk := s.verifyOk,
-    renameOk := s.renameOk }
+    renameOk := s.renameOk,
+    syncOk := s.syncOk }
+
+/-- … and with the write fault of the script: the copy stops at the refused write with an error
+(whatever adapter — `File`, `TeeWriter`, `TrailerHold` — sits in between forwards it). -/
+def envOf (p : Puller) (s : Script) (codec : Codec) : Env :=
+  let e := envOf0 p s codec
+  let x := limitWrites s.writeFault e.writes
+  { e with writes := x.1, copyOk := e.copyOk && x.2 }
 
 /-- A pull-to-file call: nothing touches the filesystem unless `open` succeeded and the output is
 compatible with the stream's tags. -/
@@ -325,9 +356,9 @@ def run (f : StepFacts) (p : Puller) (s : Script) (codec : Codec) : Run :=
 
 /-- Specification: the content a pull must publish — `none` for every failing script (open failed,
 incompatible tags, no `last` chunk reached, undecodable stream, stream shorter than the trailer,
-verification rejected, rename refused). -/
+verification rejected, rename refused, a write or the fsync refused by the file system). -/
 def expected (p : Puller) (s : Script) (codec : Codec) : Option Bytes :=
-  if s.openOk && tagsOk p s && (!p.verifies || s.verifyOk) && s.renameOk then
+  if s.openOk && tagsOk p s && (!p.verifies || s.verifyOk) && s.renameOk && s.syncOk then
     match payloadN (if p.usesWriteFile then s.stop else none) s.wire with
     | none => none
     | some wb =>
@@ -335,9 +366,13 @@ def expected (p : Puller) (s : Script) (codec : Codec) : Option Bytes :=
       | none => none
       | some lg =>
         if p.hasTrailer then
-          if s.trailer ≤ lg.length then some (lg.take (lg.length - s.trailer)) else none
-        else some lg
+          if s.trailer ≤ lg.length then fit s.writeFault (lg.take (lg.length - s.trailer)) else none
+        else fit s.writeFault lg
   else none
+
+/-- Deterministic filler bytes for large bodies on the line protocol (`g<seed>.<len>`). -/
+def genBytes (seed len : Nat) : Bytes :=
+  (List.range len).map fun i => UInt8.ofNat ((i / 61) * 37 + seed + i % 7)
 
 /-! ### value-decoding pulls -/
 
